@@ -205,7 +205,11 @@ def _is_idx_lambda_broadcast_op(expr: IndexLambda) -> bool:
                 and not are_shape_components_equal(in_dim, 1)):
             return False
 
-    return True
+    # the subscript must be the one broadcasting uses, not merely any
+    # subscript into an array of a compatible shape (in[0], in[_1, _0])
+    index_tuple = (expr.expr.index_tuple
+                   if isinstance(expr.expr, p.Subscript) else ())
+    return index_tuple == get_indexing_expression(from_shape, to_shape)
 
 
 def _is_normal_reduce_expr(expr: IndexLambda) -> bool:
